@@ -37,7 +37,7 @@ def recipe(c: Check):
     cnt = c.cov.get("coq_counters", {}).get("config", {})
     if st is not None and cnt:
         for name, least in (("NROUNDOK", 100), ("NDOMAINBELONGS", 5), ("NDOMAINCASEONLY", 2), ("NINVALID", 50), ("NUNKNOWNTYPE", 5),
-                            ("NTEMPLATEOK", 30), ("NTLSFLAGON", 6), ("NENVOK", 14), ("NENVEQ", 8)):
+                            ("NTEMPLATEOK", 30), ("NTLSFLAGON", 6), ("NENVOK", 14), ("NENVEQ", 8), ("NSTRICTREJ", 100)):
             if cnt.get(name, 0) < least:
                 c.broken.append(dict(kind="coverage", name="counter %s = %s < %s: the generator no longer reaches a branch the property names"
                                      % (name, cnt.get(name, 0), least), detail=""))
@@ -66,7 +66,9 @@ def recipe(c: Check):
              "(f) generated template documents (text, .Envs, range over parseNumberRangePair / parseNumberRange) through RenderWithTemplate vs "
              "Model/Template.v, and templated configuration files vs the written-out ones; (g) the harness binary re-executed as a child with a "
              "chosen process environment (values with '=', trailing '==', '=' first, empty, unicode, long), the child renders / loads a templated "
-             "file through LoadFileContentWithTemplate(path, GetValues()) and LoadClientConfig, compared with Model/Template.v env_build. distinct = distinct case text; "
+             "file through LoadFileContentWithTemplate(path, GetValues()) and LoadClientConfig, compared with Model/Template.v env_build; (h) strict and non-strict LoadConfigure calls running concurrently from "
+             "several goroutines on documents with an unknown key at the top / proxy / proxy.transport / proxy.plugin / visitor level, every answer "
+             "compared with the verdict Proofs/StrictLoadProofs.v proves for every schedule. distinct = distinct case text; "
              "non-trivial = every case (each carries a generated input)",
         assumptions=["strconv.ParseFloat / float product is an oracle: bandwidth theorems hold for any such function; the harness fills it with observed values",
                      "TOML/YAML/JSON parsers, text/template, cobra/pflag are third-party: their agreement is observed on generated documents, not proved",
